@@ -271,7 +271,20 @@ def judge(case, pre, r, faults, out, step, second_party=None, retry=True):
         c2['body'] = [s for s in case['body'] if s[0] not in ('raise', 'close', 'chdir')]
         c2.pop('chdir', None)
         fs.cwd = S.DIR                  # the retry names the same destination
-        r2 = S.run_save(c2, simfs.Plan(), None, fs=fs)
+        orphans = list(getattr(r.sim, 'orphans', ()))
+        hooks2 = None
+        if orphans:
+            # the failed save left a live file object whose descriptor number it had closed with os.close(): that object
+            # is finalised some time later -- here: during the retry, right before its first fsync -- and closes the number
+            def hooks2(sim2):
+                def fin():
+                    for n in orphans:
+                        if n in sim2.fs.fds:
+                            sim2.fs.close(n)
+                    del orphans[:]
+                return {('fsync', 0): fin}
+            out.probe('stale_file_object_finalised_during_retry')
+        r2 = S.run_save(c2, simfs.Plan(), None, fs=fs, hooks=hooks2)
         refused = r2.exc is not None and (pre.name_too_long or (not pre.overwrite and (
             fs.lexists(pre.dest) or 'link' in pre.env)))
         if r2.exc is not None and not refused:
@@ -536,6 +549,22 @@ def run_case(case):
         return out                   # the un-judged earlier saves could not complete in this configuration
     base = S.run_save(case, simfs.Plan(), log)
     out.steps = base.sim.n
+    if case.get('abandon_by_hand'):
+        # a save driven by hand (setup(), writes) whose producer failed and never called __exit__: it did not
+        # complete, so the destination is what it was (the part file may stay: nobody was there to remove it)
+        now, mode = base.fs.read_path(pre.dest), base.fs.mode_of(pre.dest)
+        if not isinstance(base.exc, S.BodyError):
+            pass            # refused at setup() (existing destination/part file ...): nothing to judge here
+        elif now != pre.dest_data or (pre.dest_data is not None and mode != pre.dest_mode):
+            out.fail('dest-changed', 0, 'a saver driven by hand was abandoned after %d body steps (no __exit__ call) and the '
+                     'destination changed: was %s, now %s' % (len(case['body']), _fmt(pre.dest_data), _fmt(now)),
+                     call='none', phase='abandoned')
+        else:
+            out.probe('saver_abandoned_without_exit')
+        out.extra['workloads'] = 1
+        out.sim_time = float(out.steps)
+        out.digest = log.digest()
+        return out
     judge(case, pre, base, [], out, 0)
     if out.violation is not None:
         out.violation['sig']['faulted'] = False
